@@ -653,6 +653,23 @@ func (g *HistGen) detachedDistinct(k int) []string {
 	return res
 }
 
+// maybeBindChild takes a handle on a child of the receiver before an operation that may replace or detach it, so
+// that later steps can reuse the replaced node (moving or deleting a node that was replaced earlier is a history
+// class of its own).
+func (g *HistGen) maybeBindChild(recv string) {
+	n := g.nodeOf(recv)
+	if n == nil || n.Size() == 0 || !g.r.Chance(45) {
+		return
+	}
+	if n.IsArray() {
+		g.do("getidx", recv, strconv.Itoa(g.r.Intn(n.Size())))
+	} else if n.IsObject() {
+		keys := n.Keys()
+		sort.Strings(keys)
+		g.do("getkey", recv, hexOrDash([]byte(keys[g.r.Intn(len(keys))])))
+	}
+}
+
 // Step performs one random operation.
 func (g *HistGen) Step() {
 	r := g.r
@@ -669,6 +686,7 @@ func (g *HistGen) Step() {
 		g.do("setbool", g.receiver(nil, true), strconv.Itoa(r.Intn(2)))
 	case k < 8: // setarr
 		recv := g.receiver(nil, true)
+		g.maybeBindChild(recv)
 		n := r.Intn(4)
 		var ids []string
 		for i := 0; i < n; i++ {
@@ -681,6 +699,7 @@ func (g *HistGen) Step() {
 		g.do("setarr", recv, l)
 	case k < 10: // setobj: distinct nodes
 		recv := g.receiver(nil, true)
+		g.maybeBindChild(recv)
 		n := r.Intn(3)
 		var kvs []string
 		usedK := map[string]bool{}
@@ -701,6 +720,7 @@ func (g *HistGen) Step() {
 		g.do("setobj", recv, l)
 	case k < 13:
 		recv := g.receiver(nil, false)
+		g.maybeBindChild(recv)
 		g.do("setnode", recv, g.arg(g.nodeOf(recv)))
 	case k < 17:
 		recv := g.receiver(isArr, false)
@@ -712,7 +732,18 @@ func (g *HistGen) Step() {
 		g.do("apparr", recv, strings.Join(ids, ","))
 	case k < 20:
 		recv := g.receiver(isObj, false)
-		g.do("appobj", recv, g.key(), g.arg(g.nodeOf(recv)))
+		key := g.key()
+		if n := g.nodeOf(recv); n != nil && n.IsObject() && n.Size() > 0 && r.Chance(50) {
+			// replace an existing member, keeping a handle on the member that is replaced
+			keys := n.Keys()
+			sort.Strings(keys)
+			k := keys[r.Intn(len(keys))]
+			key = hexOrDash([]byte(k))
+			if r.Chance(70) {
+				g.do("getkey", recv, key)
+			}
+		}
+		g.do("appobj", recv, key, g.arg(g.nodeOf(recv)))
 	case k == 20:
 		recv := g.receiver(isCont, false)
 		g.do("delnode", recv, g.arg(g.nodeOf(recv)))
